@@ -191,6 +191,14 @@ void Exec::op_query(const Json& o,const std::string& op){
     }
     shp(op); check_all(c,"C08",sig); return;
   }
+  if(op=="getmatrix" && alive(a) && !c.mv[a].moved_from && c.mv[a].kind==K_EMPTY){
+    // documented: GetGSLMatrix() on a vector without storage reports an error
+    begin(op,"C15");
+    int rc=lib_call(c,[&]{ auto m=c.slot[a].v().GetGSLMatrix(); (void)m; });
+    bool fired=end();
+    settle(rc,fired,true,"C15","C15","getmatrix:empty");
+    shp("getmatrix:empty"); check_all(c,"C15",op); return;
+  }
   if(!usable(a)){ skip("operand"); return; }
   MVec& ma=c.mv[a]; unsigned d=ma.dim;
   if(op=="dot"){
